@@ -110,9 +110,11 @@ WithDefect(k, member, cls) == [k EXCEPT !.defect = <<<<member, cls>>>>, !.bad = 
 \* fixture keys whose key FILE is of the restricted type id-RSASSA-PSS (same numbers as an RSA key; the type is
 \* part of the key: key2jwk states it as "alg":"PS256", jwk2key must write it back).  Kept apart from AsymBase:
 \* the JWK-import matrices enumerate DOMAIN AsymBase and a JWK has no such type.
-PssBase == [ rsapss2048a |-> [kty |-> "RSA", bits |-> 2048, crv |-> NONE] ]
-PssBases == DOMAIN PssBase
-BaseRec(b) == IF b \in PssBases THEN PssBase[b] ELSE AsymBase[b]
+\* (rsa2048z: an rsaEncryption key whose private exponent is one octet shorter than the modulus - for the tools)
+ExtraBase == [ rsapss2048a |-> [kty |-> "RSA", bits |-> 2048, crv |-> NONE], rsa2048z |-> [kty |-> "RSA", bits |-> 2048, crv |-> NONE],
+               rsa9216a |-> [kty |-> "RSA", bits |-> 9216, crv |-> NONE] ]     \* larger than any size a provider may have thought of
+PssBases == {"rsapss2048a"}
+BaseRec(b) == IF b \in DOMAIN ExtraBase THEN ExtraBase[b] ELSE AsymBase[b]
 AsymKey(base, priv, alg, kid) ==
   [base |-> base, kty |-> BaseRec(base).kty, bits |-> BaseRec(base).bits,
    crv |-> BaseRec(base).crv, var |-> "a", priv |-> priv, alg |-> alg, kid |-> kid,
